@@ -19,7 +19,7 @@ RULE_TEXT = ('(a) for every rule name and every option name in {arithmetic, prec
              '>= 3 option names')
 ASSUMPTIONS = ['which options each rule / arithmetic declares and forces is transcribed from the rules\' help texts and options() methods (table in this module)',
                'an assignment the constructor refuses with UsageError is outside the claim and only counted']
-MIN_COUNTERS = {'layer_assignments_checked': 800, 'assignments_with_both_layers': 350, 'immunity_pairs_compared': 300, 'report_headers_checked': 800}
+MIN_COUNTERS = {'main_selector_runs': 30, 'options_object_assignments': 200, 'layer_assignments_checked': 800, 'assignments_with_both_layers': 350, 'immunity_pairs_compared': 300, 'report_headers_checked': 800}
 ANCHOR_FILES = ['droop/options.py', 'droop/election.py', 'droop/values/__init__.py']
 
 FORCED = {
@@ -87,7 +87,7 @@ def header_list(report, label):
     return None if m is None else m.group(1).split(', ')
 
 
-def check_assignment(ctx, rule, name, fv, cv, base=None, cli=False):
+def check_assignment(ctx, rule, name, fv, cv, base=None, cli=False, as_object=False):
     "fv / cv: value in the file layer / caller layer or None; base: extra caller options (the arithmetic under which the name is exercised)"
     file_tokens = [as_file_token(name, fv)] if fv is not None else []
     text = PROFILE % ('[droop %s]' % ' '.join(file_tokens) if file_tokens else '')
@@ -95,6 +95,8 @@ def check_assignment(ctx, rule, name, fv, cv, base=None, cli=False):
     caller.update(base or {})
     if cv is not None:
         caller[name] = cv
+    if as_object:
+        ctx.count('options_object_assignments')
     if cli:
         # the command-line layer: the same assignment as Droop.py receives it, as name=value words parsed by Options.parse
         from droop.options import Options
@@ -103,7 +105,12 @@ def check_assignment(ctx, rule, name, fv, cv, base=None, cli=False):
         ctx.count('cli_layer_assignments')
     case = dict(kind='layers', blt=text, options=dict(caller), name=name, rule=rule, base=base)
     ctx.evaluated()
-    run = do_count(text, dict(caller), budget=5.0, render=True)
+    if as_object:
+        # the caller may hand over an Options object instead of a dict (Election accepts both)
+        from droop.options import Options
+        run = do_count(text, None, budget=5.0, render=True, options_object=Options(dict(caller)))
+    else:
+        run = do_count(text, dict(caller), budget=5.0, render=True)
     if run.error is not None:
         if isinstance(run.error, UsageError):
             ctx.count('assignment_refused_by_constructor')
@@ -258,6 +265,52 @@ def immunity(ctx, rng):
     ctx.sample(dict(kind='immunity', rule=rule, caller={k: v for k, v in caller.items() if k != 'rule'}, droop=ftoks), keep=2)
 
 
+def main_selectors(ctx):
+    "Droop.main: the report / dump / json selectors obey the same precedence (caller > ballot file > default report only)"
+    import os, io, tempfile, contextlib, importlib.util
+    from ..harness import REPO
+    spec = importlib.util.spec_from_file_location('Droop_cli_c17', os.path.join(REPO, 'Droop.py'))
+    cli = importlib.util.module_from_spec(spec)
+    spec.loader.exec_module(cli)
+    out = os.path.join(os.path.dirname(os.path.dirname(os.path.dirname(os.path.abspath(__file__)))), 'out')
+    default = dict(report=True, dump=False, json=False)
+    combos = []
+    for ftoks in ([], ['dump'], ['json'], ['dump', 'json'], ['report=false'], ['report=false', 'dump'], ['json=true', 'dump=no']):
+        for cmd in ({}, {'dump': True}, {'json': True}, {'report': False}, {'dump': False}, {'report': True, 'json': False}):
+            combos.append((ftoks, cmd))
+    for k, (ftoks, cmd) in enumerate(combos):
+        if k % ctx.nshards != ctx.shard:
+            continue
+        text = PROFILE % ('[droop %s]' % ' '.join(ftoks) if ftoks else '')
+        fd, path = tempfile.mkstemp(suffix='.blt', dir=out)
+        try:
+            with os.fdopen(fd, 'w') as f:
+                f.write(text)
+            opts = dict(rule='scotland', path=path)
+            opts.update(cmd)
+            with contextlib.redirect_stdout(io.StringIO()):
+                try:
+                    res = cli.main(dict(opts))
+                except Exception as e:      # pylint: disable=broad-except
+                    ctx.violation('main-raises:%s' % type(e).__name__, 'Droop.main raised %r with [droop %s] and caller %r' % (e, ' '.join(ftoks), cmd),
+                                  dict(kind='main', blt=text, options=cmd))
+                    continue
+        finally:
+            os.unlink(path)
+        ctx.count('main_selector_runs')
+        ctx.evaluated()
+        from droop.options import Options
+        fileopts = Options.parse(ftoks)
+        want = {}
+        for sel in ('report', 'dump', 'json'):
+            want[sel] = cmd.get(sel, fileopts.get(sel, default[sel]))
+        got = dict(report='\nElection: ' in res, dump='R\tAction\tQuota' in res, json='"actions": [' in res)
+        if got != want:
+            ctx.violation('main-output-selectors', 'Droop.main with [droop %s] and caller options %r produced %s, precedence says %s'
+                          % (' '.join(ftoks), cmd, {k2: v for k2, v in got.items() if v}, {k2: v for k2, v in want.items() if v}),
+                          dict(kind='main', blt=text, options=cmd))
+
+
 def all_assignments():
     out = []
     for rule in configs.ALL_RULES:
@@ -281,7 +334,10 @@ def shard(ctx):
             check_assignment(ctx, rule, name, fv, cv, base)
             if cv is not None:
                 check_assignment(ctx, rule, name, fv, cv, base, cli=True)
+            if i % 3 == 0:
+                check_assignment(ctx, rule, name, fv, cv, base, as_object=True)
     ctx.count('assignment_enumeration_complete_shards')
+    main_selectors(ctx)
     n_min = 20 if ctx.quick else 300
     for i, rng in ctx.cases(n_min, 10 ** 9):
         immunity(ctx, rng)
